@@ -253,7 +253,8 @@ theorem sws_loop_ext (fuel : Nat) : ∀ (l : L) (r : Option Nat), Ext l (skipWhi
 theorem sws_loop_inv (fuel : Nat) : ∀ (l : L) (r : Option Nat) (p : Nat), Pend l r p →
     Tr l.inp l.toks.toList p l.line l.lastnl → AllOK l →
     (skipWhiteSpace.loop fuel l r).2 = true →
-      Inv (skipWhiteSpace.loop fuel l r).1 ∧ Ready (skipWhiteSpace.loop fuel l r).1 := by
+      Inv (skipWhiteSpace.loop fuel l r).1 ∧ Ready (skipWhiteSpace.loop fuel l r).1 ∧
+        p ≤ (skipWhiteSpace.loop fuel l r).1.pos := by
   induction fuel with
   | zero => intro l r p _ _ _ h; simp [skipWhiteSpace.loop] at h
   | succ n ih =>
@@ -285,10 +286,9 @@ theorem sws_loop_inv (fuel : Nat) : ∀ (l : L) (r : Option Nat) (p : Nat), Pend
       · simp at h
       · rename_i hr2
         simp only [hr2, if_false]
-        apply ih l2 r2 l1.pos hp2
-        · rw [c1, c2, c3, c5, i1, i2, i3]; exact i4
-        · intro t ht; rw [c5, i2] at ht; rw [c1, c5, i1, i2]; exact hok t ht
-        · exact h
+        have hrec := ih l2 r2 l1.pos hp2 (by rw [c1, c2, c3, c5, i1, i2, i3]; exact i4)
+          (by intro t ht; rw [c5, i2] at ht; rw [c1, c5, i1, i2]; exact hok t ht) h
+        exact ⟨hrec.1, hrec.2.1, by have := hrec.2.2; rw [i3] at this; omega⟩
     · rename_i hb
       simp only [hb, Bool.false_eq_true, if_false]
       cases r with
@@ -297,7 +297,7 @@ theorem sws_loop_inv (fuel : Nat) : ∀ (l : L) (r : Option Nat) (p : Nat), Pend
         obtain ⟨q1, q2, q3, q4⟩ := hp.some_pos c rfl
         have hpos : (l.backup 0).pos = p := by simp [L.backup]; omega
         have hbf : blank (some c) = false := by simpa using hb
-        refine ⟨⟨by rw [hpos]; simp [L.backup]; omega, ?_, ?_⟩, ?_⟩
+        refine ⟨⟨by rw [hpos]; simp [L.backup]; omega, ?_, ?_⟩, ?_, by rw [hpos]; exact Nat.le_refl _⟩
         · rw [hpos]; simpa [L.backup] using htr
         · simpa [AllOK, L.backup] using hok
         · show (l.backup 0).pos < (l.backup 0).inp.size ∧ blank (some (decodeRune (l.backup 0).inp (l.backup 0).pos).1) = false
@@ -313,7 +313,7 @@ theorem sws_ext (l : L) : Ext l (skipWhiteSpace l).1 := by
   · exact ⟨rfl, [], by simp, by simp⟩
 
 theorem sws_inv_ready (l : L) (h : Inv l) (hok : (skipWhiteSpace l).2 = true) :
-    Inv (skipWhiteSpace l).1 ∧ Ready (skipWhiteSpace l).1 := by
+    Inv (skipWhiteSpace l).1 ∧ Ready (skipWhiteSpace l).1 ∧ l.pos ≤ (skipWhiteSpace l).1.pos := by
   simp only [skipWhiteSpace] at hok ⊢
   obtain ⟨hp, hc⟩ := next_spec l h.le
   obtain ⟨c1, c2, c3, c4, c5⟩ := core_fields hc
@@ -345,6 +345,83 @@ theorem sws_true (l : L) (hp : l.pos < l.inp.size) (hb : blank (some (decodeRune
   simp only [skipWhiteSpace, L.next, hn, if_false]
   rw [show l.inp.size + 2 = (l.inp.size + 1) + 1 from rfl]
   simp only [skipWhiteSpace.loop, hb, Bool.false_eq_true, if_false]
+
+theorem next_none_iff (l : L) : (l.next).2 = none ↔ l.inp.size ≤ l.pos := by
+  unfold L.next
+  by_cases h : l.pos ≥ l.inp.size
+  · simp [h]
+  · simp [h]
+
+theorem next_none_state (l : L) (h : (l.next).2 = none) : (l.next).1 = l := by
+  have := (next_none_iff l).1 h
+  unfold L.next
+  simp [this]
+
+theorem next_some_progress (l : L) (hle : l.pos ≤ l.inp.size) (h : (l.next).2 ≠ none) :
+    l.pos < (l.next).1.pos ∧ (l.next).1.pos ≤ l.inp.size ∧ (l.next).1.inp = l.inp ∧ (l.next).1.toks = l.toks := by
+  have hlt : l.pos < l.inp.size := by
+    apply Nat.lt_of_not_le; intro hge; exact h ((next_none_iff l).2 hge)
+  obtain ⟨h1, h2, _, _⟩ := decodeRune_spec l.inp l.pos hlt
+  have hn : ¬ l.pos ≥ l.inp.size := by omega
+  simp only [L.next, hn, if_false]
+  exact ⟨by omega, h2, trivial, trivial⟩
+
+/-- what skipWhiteSpace's loop returns, with enough fuel: `false` — exactly one token was pushed, the
+    EOF token; `true` — nothing was pushed. `q` = position of the state the pending rune was read
+    from. -/
+theorem sws_loop_total (fuel : Nat) : ∀ (l : L) (r : Option Nat),
+    l.pos ≤ l.inp.size → (r = none → l.inp.size ≤ l.pos) → (r ≠ none → l.inp.size - l.pos < fuel) → 1 ≤ fuel →
+    ((skipWhiteSpace.loop fuel l r).2 = false →
+      ∃ e, (skipWhiteSpace.loop fuel l r).1.toks = l.toks.push e ∧ e.id = tEOF) ∧
+    ((skipWhiteSpace.loop fuel l r).2 = true → (skipWhiteSpace.loop fuel l r).1.toks = l.toks) := by
+  induction fuel with
+  | zero => intro l r _ _ _ h; omega
+  | succ n ih =>
+    intro l r hle hn hf _
+    simp only [skipWhiteSpace.loop]
+    split
+    · -- blank
+      generalize hl1 : (if r = some 10 then { l.track r with skippedNl := l.skippedNl + 1 } else l) = l1
+      have e1 : l1.inp = l.inp ∧ l1.pos = l.pos ∧ l1.toks = l.toks := by
+        subst hl1; split <;> simp [L.track]
+      obtain ⟨i1, i2, i3⟩ := e1
+      by_cases hr2 : (l1.next).2 = none
+      · simp only [hr2, if_true]
+        refine ⟨fun _ => ?_, fun h => by simp at h⟩
+        rw [next_none_state l1 hr2]
+        exact ⟨Tok.mk tEOF l1.start [] false false l1.skippedNl l1.stamp.1 l1.stamp.2,
+          by simp [L.emitToken, L.emit, i3], rfl⟩
+      · simp only [hr2, if_false]
+        obtain ⟨p1, p2, p3, p4⟩ := next_some_progress l1 (by rw [i1, i2]; exact hle) hr2
+        -- the pending rune was a real one, so fuel is left
+        have hrs : r ≠ none := by
+          intro h0
+          have := hn h0
+          exact hr2 ((next_none_iff l1).2 (by rw [i1, i2]; exact this))
+        have hfl := hf hrs
+        rw [i2] at p1
+        rw [i1] at p2
+        have hm : l.inp.size - (l1.next).1.pos < n := by omega
+        have := ih (l1.next).1 (l1.next).2 (by rw [p3, i1]; exact p2) (fun h => absurd h hr2)
+          (fun _ => by rw [p3, i1]; exact hm) (by omega)
+        rw [p4, i3] at this
+        exact this
+    · refine ⟨fun h => by simp at h, fun _ => by simp [L.backup]⟩
+
+theorem sws_total (l : L) (hle : l.pos ≤ l.inp.size) :
+    ((skipWhiteSpace l).2 = false → ∃ e, (skipWhiteSpace l).1.toks = l.toks.push e ∧ e.id = tEOF) ∧
+    ((skipWhiteSpace l).2 = true → (skipWhiteSpace l).1.toks = l.toks) := by
+  simp only [skipWhiteSpace]
+  by_cases hr : (l.next).2 = none
+  · have hs := next_none_state l hr
+    have hsz := (next_none_iff l).1 hr
+    have := sws_loop_total ((l.next).1.inp.size + 2) { (l.next).1 with skippedNl := 0 } (l.next).2
+      (by simp only []; rw [hs]; exact hle) (fun _ => by simp only []; rw [hs]; exact hsz) (fun h => absurd hr h) (by omega)
+    simpa [hs] using this
+  · obtain ⟨p1, p2, p3, p4⟩ := next_some_progress l hle hr
+    have := sws_loop_total ((l.next).1.inp.size + 2) { (l.next).1 with skippedNl := 0 } (l.next).2
+      (by simp only []; rw [p3]; exact p2) (fun h => absurd h hr) (fun _ => by simp only []; omega) (by omega)
+    simpa [p4] using this
 
 theorem peek1_eq (l : L) : l.peek 1 = (l.next).2 := by
   unfold L.peek L.next
@@ -564,6 +641,60 @@ theorem lexTextBlock_blk (l : L) (hle : l.pos ≤ l.inp.size) : Blk l (lexTextBl
         rw [← hi]; apply f4; rw [hr]; simpa using hc10⟩
     · exact text_loop _ l _ _ h0
 
+theorem next_pos_le (l : L) : l.pos ≤ (l.next).1.pos := by
+  unfold L.next; split
+  · exact Nat.le_refl _
+  · exact Nat.le_add_right _ _
+
+theorem value_loop_pos (ae : Bool) (endTok : Option Nat) (fuel : Nat) :
+    ∀ (l : L) (r : Option Nat) (esc : Bool) (a b : Nat) (l' : L) (a' b' : Nat),
+    lexValueLoop ae endTok fuel l r esc a b = some (l', a', b') → l.pos ≤ l'.pos := by
+  induction fuel with
+  | zero => intro l r esc a b l' a' b' h; simp [lexValueLoop] at h
+  | succ n ih =>
+    intro l r esc a b l' a' b' h
+    simp only [lexValueLoop] at h
+    split at h
+    · split at h
+      · simp at h
+      · exact Nat.le_trans (next_pos_le l) (ih _ _ _ _ _ _ _ _ h)
+    · simp only [Option.some.injEq, Prod.mk.injEq] at h
+      obtain ⟨rfl, _, _⟩ := h
+      exact Nat.le_refl _
+
+theorem block_loop_pos (fuel : Nat) :
+    ∀ (l : L) (r : Option Nat) (a b : Nat) (l' : L) (a' b' : Nat),
+    blockLoop fuel l r a b = some (l', a', b') → l.pos ≤ l'.pos := by
+  induction fuel with
+  | zero => intro l r a b l' a' b' h; simp [blockLoop] at h
+  | succ n ih =>
+    intro l r a b l' a' b' h
+    simp only [blockLoop] at h
+    split at h
+    · split at h
+      · simp at h
+      · exact Nat.le_trans (next_pos_le l) (ih _ _ _ _ _ _ _ h)
+    · simp only [Option.some.injEq, Prod.mk.injEq] at h
+      obtain ⟨rfl, _, _⟩ := h
+      exact Nat.le_refl _
+
+/-- **what a token phase does to the token list and the position**: exactly one token is pushed;
+    the position stays inside the input; a phase that continues has moved forward; a phase that
+    stops has pushed an error token or stands at the end of the input. -/
+def Pushed (l : L) (res : L × Next) : Prop :=
+  ∃ t, res.1.toks = l.toks.push t ∧ res.1.pos ≤ res.1.inp.size ∧
+    (res.2 = Next.token → l.pos < res.1.pos) ∧
+    (res.2 = Next.stop → t.id = tERROR ∨ res.1.inp.size ≤ res.1.pos)
+
+theorem emit_toks (l : L) (id : Nat) (val : List Nat) (ident ae : Bool) :
+    (l.emit id val ident ae).toks =
+      l.toks.push (Tok.mk id l.start val ident ae l.skippedNl l.stamp.1 l.stamp.2) := rfl
+
+theorem Pushed.congr {l l' : L} {res : L × Next} (h : Pushed l' res) (ht : l'.toks = l.toks) (hp : l'.pos = l.pos) :
+    Pushed l res := by
+  obtain ⟨t, a, b, c, d⟩ := h
+  exact ⟨t, by rw [a, ht], b, by rw [← hp]; exact c, d⟩
+
 /-- tracked loop of the string lexer: the bookkeeping pair stays true; on exit the pending rune
     is the end token -/
 theorem value_loop (ae : Bool) (endTok : Option Nat) (T : List Tok) (fuel : Nat) :
@@ -621,26 +752,39 @@ theorem block_loop (T : List Tok) (fuel : Nat) :
       exact ⟨rfl, hpk, p, hp, htr⟩
 
 theorem hash_loop (fuel : Nat) : ∀ (l0 l : L) (r : Option Nat), Scan l0 l r →
+    (r = none → l.inp.size ≤ l.pos) → (r ≠ none → l.inp.size - l.pos < fuel) →
     let res := hashLoop fuel l r
-    res.1.core = l0.core ∧ res.1.pos ≤ res.1.inp.size ∧ (res.2 = none ∨
+    res.1.core = l0.core ∧ res.1.pos ≤ res.1.inp.size ∧ ((res.2 = none ∧ res.1.inp.size ≤ res.1.pos) ∨
       (res.2 = some 10 ∧ ∃ p, Pend res.1 (some 10) p ∧ l0.pos ≤ p ∧ NoNl l0.inp l0.pos p)) := by
   induction fuel with
-  | zero => intro l0 l r h; obtain ⟨p, hp, _⟩ := h.ex; exact ⟨h.core, hp.le, Or.inl rfl⟩
+  | zero =>
+    intro l0 l r h hn hf
+    obtain ⟨p, hp, _⟩ := h.ex
+    have hr : r = none := by
+      apply Classical.byContradiction; intro h0; have := hf h0; omega
+    exact ⟨h.core, hp.le, Or.inl ⟨rfl, hn hr⟩⟩
   | succ n ih =>
-    intro l0 l r h
+    intro l0 l r h hn hf
     simp only [hashLoop]
     split
     · rename_i hc
       simp only [Bool.and_eq_true, bne_iff_ne, ne_eq] at hc
       cases r with
       | none => exact absurd rfl hc.2
-      | some c => exact ih _ _ _ (h.next (by intro h'; apply hc.1; rw [h']))
+      | some c =>
+        have hle : l.pos ≤ l.inp.size := by obtain ⟨p, hp, _⟩ := h.ex; exact hp.le
+        refine ih _ _ _ (h.next (by intro h'; apply hc.1; rw [h'])) ?_ ?_
+        · intro h0; rw [next_none_state l h0]; exact (next_none_iff l).1 h0
+        · intro h0
+          obtain ⟨p1, p2, p3, _⟩ := next_some_progress l hle h0
+          have := hf (by simp)
+          rw [p3]; omega
     · rename_i hc
       simp only [Bool.and_eq_true, bne_iff_ne, ne_eq, not_and, Decidable.not_not] at hc
       refine ⟨h.core, by obtain ⟨p, hp, _⟩ := h.ex; exact hp.le, ?_⟩
       by_cases h10 : r = some 10
       · right; subst h10; exact ⟨rfl, h.ex⟩
-      · left; exact hc h10
+      · left; exact ⟨hc h10, hn (hc h10)⟩
 
 /-- emitting a token whose start is covered by the bookkeeping, then continuing at `pos` with a
     bookkeeping pair that is true there, re-establishes the invariant -/
@@ -673,9 +817,25 @@ theorem open_spec (l : L) (hle : l.pos ≤ l.inp.size) (hne : l.peek 1 ≠ some 
     · exact ⟨b1.trans (next_blk b1.le hq (by decide)).1, by simp [hq]⟩
   · exact ⟨b1, hr⟩
 
+/-- the opener of a string literal is consumed: the position moves forward -/
+theorem open_strict (l : L) (hr : Ready l) : l.pos < (lexValueOpen l).1.pos := by
+  have hnn : ({ l with start := l.pos } : L).next.2 ≠ none := by
+    intro h0
+    have := (next_none_iff _).1 h0
+    have := hr.1
+    simp only [] at *; omega
+  obtain ⟨p1, _, _, _⟩ := next_some_progress { l with start := l.pos } (Nat.le_of_lt hr.1) hnn
+  simp only [lexValueOpen]
+  split
+  · exact Nat.lt_of_lt_of_le p1 (next_pos_le _)
+  · exact p1
+
 theorem lexValue_inv (l : L) (h : Inv l) (hr : Ready l) (hne : l.peek 1 ≠ some 10) :
-    AllOK (lexValue l).1 ∧ ((lexValue l).2 = Next.token → Inv (lexValue l).1) ∧ (lexValue l).1.inp = l.inp := by
+    AllOK (lexValue l).1 ∧ ((lexValue l).2 = Next.token → Inv (lexValue l).1) ∧ (lexValue l).1.inp = l.inp ∧
+      Pushed l (lexValue l) := by
   obtain ⟨ob, oe⟩ := open_spec l h.le hne
+  have hos := open_strict l hr
+  have hnpl := next_pos_le (lexValueOpen l).1
   obtain ⟨o1, o2, o3, o4, o5⟩ := core_fields ob.core
   simp only [] at o1 o2 o3 o4 o5
   obtain ⟨np, nc⟩ := next_spec (lexValueOpen l).1 ob.le
@@ -688,7 +848,9 @@ theorem lexValue_inv (l : L) (h : Inv l) (hr : Ready l) (hne : l.peek 1 ≠ some
   cases res with
   | none =>
     simp only [lexValueClose]
-    refine ⟨?_, fun h' => by simp at h', show (lexValueOpen l).1.next.1.inp = l.inp from n1.trans o1⟩
+    refine ⟨?_, fun h' => by simp at h', show (lexValueOpen l).1.next.1.inp = l.inp from n1.trans o1,
+      _, (emit_toks _ tERROR _ false false).trans (congrArg (fun a => Array.push a _) (n5.trans o5)),
+      Nat.le_refl _, fun h' => by simp at h', fun _ => Or.inl rfl⟩
     apply emit_allOK
     · intro t ht; simp only [] at ht ⊢; rw [n5, o5] at ht; rw [n1, n5, o1, o5]; exact h.ok t ht
     · right; simp only []; rw [n1, n2, n3, n4, n5, o1, o2, o3, o4, o5]; exact h.tr
@@ -714,17 +876,26 @@ theorem lexValue_inv (l : L) (h : Inv l) (hr : Ready l) (hne : l.peek 1 ≠ some
     have hs' : ∀ id, id = tSTRING ∨ id = tERROR → ∀ val, StartOK l'.inp id l'.start ∧ TextOK l'.inp id l'.start val := by
       intro id hid val
       rw [c1, c4, n1, n4, o1, o4]; exact startText_of_ready hr id hid val
+    have hT' : l'.toks = l.toks := c5.trans (n5.trans o5)
+    have hlp := value_loop_pos _ _ _ _ _ _ _ _ _ _ _ hres
+    have hstrict : l.pos < l'.pos := by omega
     simp only [lexValueClose]
     split
     · split
       · exact ⟨emit_allOK _ _ _ _ _ hok' (Or.inr hst') (Or.inr (hs' _ (Or.inr rfl) _)), fun h' => by simp at h',
-          show l'.inp = l.inp from c1.trans (n1.trans o1)⟩
+          show l'.inp = l.inp from c1.trans (n1.trans o1),
+          _, (emit_toks l' tERROR _ false false).trans (congrArg (fun a => Array.push a _) hT'),
+          hle', fun h' => by simp at h', fun _ => Or.inl rfl⟩
       · exact ⟨(emit_phase l' _ _ _ _ a' b' hok' hst' hle' hpos' (Or.inr (hs' _ (Or.inl rfl) _))).ok,
           fun _ => emit_phase l' _ _ _ _ a' b' hok' hst' hle' hpos' (Or.inr (hs' _ (Or.inl rfl) _)),
-          show l'.inp = l.inp from c1.trans (n1.trans o1)⟩
+          show l'.inp = l.inp from c1.trans (n1.trans o1),
+          _, (emit_toks l' tSTRING _ false true).trans (congrArg (fun a => Array.push a _) hT'),
+          hle', fun _ => hstrict, fun h' => by simp at h'⟩
     · exact ⟨(emit_phase l' _ _ _ _ a' b' hok' hst' hle' hpos' (Or.inr (hs' _ (Or.inl rfl) _))).ok,
         fun _ => emit_phase l' _ _ _ _ a' b' hok' hst' hle' hpos' (Or.inr (hs' _ (Or.inl rfl) _)),
-        show l'.inp = l.inp from c1.trans (n1.trans o1)⟩
+        show l'.inp = l.inp from c1.trans (n1.trans o1),
+        _, (emit_toks l' tSTRING _ false false).trans (congrArg (fun a => Array.push a _) hT'),
+        hle', fun _ => hstrict, fun h' => by simp at h'⟩
 
 theorem slice_length (l : L) (a b : Nat) (hab : a ≤ b) (hb : b ≤ l.inp.size) : (l.slice a b).length = b - a := by
   simp [L.slice]; omega
@@ -780,13 +951,14 @@ theorem slice_getLast (l : L) (a b : Nat) (hab : a < b) (hb : b ≤ l.inp.size) 
     stale in exactly the way the classifier recognises -/
 theorem hash_inv (l la : L) (h : Inv l) (hp : Pend la (some 35) l.pos) (hc : la.core = l.core) :
     AllOK (lexCommentHash la).1 ∧ ((lexCommentHash la).2 = Next.token → Inv (lexCommentHash la).1) ∧
-      (lexCommentHash la).1.inp = l.inp := by
+      (lexCommentHash la).1.inp = l.inp ∧ Pushed l (lexCommentHash la) := by
   obtain ⟨f1, f2, _, f4⟩ := hp.facts
   obtain ⟨a1, a2, a3, a4, a5⟩ := core_fields hc
   have hnl : NoNl l.inp l.pos la.pos := by rw [← a1]; exact f4 (by decide)
   have hscan : Scan { l with start := la.pos } { la with start := la.pos } (some 35) :=
     ⟨by simp [L.core, a1, a2, a3, a5], l.pos, ⟨f2, fun h => by simp at h, hp.some_pos⟩, Nat.le_refl _, noNl_empty _ _⟩
   obtain ⟨rc, rle, rr⟩ := hash_loop (({ la with start := la.pos } : L).inp.size + 2) _ _ _ hscan
+    (fun h => by simp at h) (fun _ => by show la.inp.size - la.pos < la.inp.size + 2; omega)
   simp only [lexCommentHash]
   generalize hashLoop _ _ _ = res at rc rle rr ⊢
   obtain ⟨R, r⟩ := res
@@ -804,13 +976,19 @@ theorem hash_inv (l la : L) (h : Inv l) (hp : Pend la (some 35) l.pos) (hc : la.
     rw [c4, c1, hap]
     exact ⟨by omega, by simpa [a1] using hab⟩
   have hem := emit_allOK R tPOSTCOMMENT (R.slice R.start R.pos) false false hok (Or.inr hst) (Or.inr hshape)
+  have htoks : (R.emit tPOSTCOMMENT (R.slice R.start R.pos) false false).toks =
+      l.toks.push (Tok.mk tPOSTCOMMENT R.start (R.slice R.start R.pos) false false R.skippedNl R.stamp.1 R.stamp.2) := by
+    simp [L.emit, c5]
   split
-  · exact ⟨hem, fun h' => by simp at h', show R.inp = l.inp from c1⟩
+  · rename_i hr0
+    rcases rr with ⟨_, rsz⟩ | ⟨rr, _⟩
+    · exact ⟨hem, fun h' => by simp at h', show R.inp = l.inp from c1,
+        _, htoks, rle, fun h' => by simp at h', fun _ => Or.inr rsz⟩
+    · rw [hr0] at rr; simp at rr
   · rename_i hr
-    rcases rr with rr | ⟨_, p, hpp, g1, g2⟩
+    rcases rr with ⟨rr, _⟩ | ⟨_, p, hpp, g1, g2⟩
     · exact absurd rr hr
-    · refine ⟨by simpa [AllOK, L.hashEnd] using hem, fun _ => ?_, show R.inp = l.inp from c1⟩
-      obtain ⟨q1, q2, q3, _⟩ := hpp.facts
+    · obtain ⟨q1, q2, q3, _⟩ := hpp.facts
       obtain ⟨q3a, q3b⟩ := q3 rfl
       rw [c1] at q3b q2
       -- the newline lies behind the `#`
@@ -818,6 +996,8 @@ theorem hash_inv (l la : L) (h : Inv l) (hp : Pend la (some 35) l.pos) (hc : la.
         apply Nat.le_of_not_lt; intro hlt
         exact hnl p g1 hlt q3b
       obtain ⟨e1, e2⟩ := nlBefore_noNl' g1 g2
+      refine ⟨by simpa [AllOK, L.hashEnd] using hem, fun _ => ?_, show R.inp = l.inp from c1,
+        _, htoks, rle, fun _ => by show l.pos < R.pos; omega, fun h' => by simp at h'⟩
       refine ⟨by simpa [L.hashEnd, L.emit, c1] using q2, ?_, by simpa [AllOK, L.hashEnd] using hem⟩
       simp only [L.hashEnd, L.emit, Array.toList_push, c1, c2, c3, c5, q3a]
       refine ⟨by simp [nlBefore, q3b, e1, h.tr.1], Or.inr ?_⟩
@@ -836,7 +1016,7 @@ theorem hash_inv (l la : L) (h : Inv l) (hp : Pend la (some 35) l.pos) (hc : la.
 theorem block_inv (l la : L) (h : Inv l) (hb : Blk l la) (hpk : la.peek 1 = some 42)
     (h47 : l.inp.getD l.pos 0 = 47 ∧ la.pos = l.pos + 1) :
     AllOK (lexCommentBlock la).1 ∧ ((lexCommentBlock la).2 = Next.token → Inv (lexCommentBlock la).1) ∧
-      (lexCommentBlock la).1.inp = l.inp := by
+      (lexCommentBlock la).1.inp = l.inp ∧ Pushed l (lexCommentBlock la) := by
   obtain ⟨b2, b2p⟩ := next_blk hb.le hpk (by decide)
   have hlb := hb.trans b2
   obtain ⟨a1, a2, a3, a4, a5⟩ := core_fields hlb.core
@@ -870,7 +1050,9 @@ theorem block_inv (l la : L) (h : Inv l) (hb : Blk l la) (hpk : la.peek 1 = some
   cases res with
   | none =>
     simp only []
-    refine ⟨?_, fun h' => by simp at h', show ({ (la.next).1 with start := (la.next).1.pos } : L).next.1.inp = l.inp from n1.trans a1⟩
+    refine ⟨?_, fun h' => by simp at h', show ({ (la.next).1 with start := (la.next).1.pos } : L).next.1.inp = l.inp from n1.trans a1,
+      _, (emit_toks _ tERROR _ false false).trans (congrArg (fun a => Array.push a _) (n5.trans a5)),
+      Nat.le_refl _, fun h' => by simp at h', fun _ => Or.inl rfl⟩
     apply emit_allOK
     · intro t ht; simp only [] at ht ⊢; rw [n5, a5] at ht; rw [n1, n5, a1, a5]; exact h.ok t ht
     · right; simp only []; rw [n1, n2, n3, n4, n5, a1, a2, a3, a5]; exact htr0
@@ -926,13 +1108,27 @@ theorem block_inv (l la : L) (h : Inv l) (hb : Blk l la) (hpk : la.peek 1 = some
         rw [d5] at ht
         rw [d1, d5]
         exact hem t ht
+    have hlpos := block_loop_pos _ _ _ _ _ _ _ _ hres
+    have hnp := next_pos_le ({ (la.next).1 with start := (la.next).1.pos } : L)
     exact ⟨hfin.ok, fun _ => hfin,
-      show (l'.emit tPRECOMMENT (l'.slice l'.start (l'.pos - 1)) false false).next.1.inp = l.inp from d1.trans hI⟩
+      show (l'.emit tPRECOMMENT (l'.slice l'.start (l'.pos - 1)) false false).next.1.inp = l.inp from d1.trans hI,
+      Tok.mk tPRECOMMENT l'.start (l'.slice l'.start (l'.pos - 1)) false false l'.skippedNl l'.stamp.1 l'.stamp.2,
+      by show (l'.emit tPRECOMMENT (l'.slice l'.start (l'.pos - 1)) false false).next.1.toks = _
+         rw [d5]; simp [L.emit, hT],
+      b3.le,
+      fun _ => by
+        show l.pos < (l'.emit tPRECOMMENT (l'.slice l'.start (l'.pos - 1)) false false).next.1.pos
+        have h1 := hlb.ge
+        have h2 : (la.next).1.pos ≤ l'.pos := Nat.le_trans hnp hlpos
+        have h3 := h47.2
+        have h4 := b2.ge
+        omega,
+      fun h' => by simp at h'⟩
 
 theorem lexComment_inv (l : L) (h : Inv l)
     (hcase : l.peek 1 = some 35 ∨ (l.peek 1 = some 47 ∧ l.peek 2 = some 42)) :
     AllOK (lexComment l).1 ∧ ((lexComment l).2 = Next.token → Inv (lexComment l).1) ∧
-      (lexComment l).1.inp = l.inp := by
+      (lexComment l).1.inp = l.inp ∧ Pushed l (lexComment l) := by
   obtain ⟨np, nc⟩ := next_spec l h.le
   simp only [lexComment]
   split
@@ -954,7 +1150,9 @@ theorem lexComment_inv (l : L) (h : Inv l)
 theorem blk_emit (l l3 : L) (h : Inv l) (hb : Blk { l with start := l.pos } l3)
     (id : Nat) (val : List Nat) (ident ae : Bool)
     (hs : id = tEOF ∨ (StartOK l.inp id l.pos ∧ TextOK l.inp id l.pos val)) :
-    Inv (l3.emit id val ident ae) ∧ (l3.emit id val ident ae).inp = l.inp := by
+    Inv (l3.emit id val ident ae) ∧ (l3.emit id val ident ae).inp = l.inp ∧
+      (l3.emit id val ident ae).toks =
+        l.toks.push (Tok.mk id l3.start val ident ae l3.skippedNl l3.stamp.1 l3.stamp.2) := by
   obtain ⟨c1, c2, c3, c4, c5⟩ := core_fields hb.core
   simp only [] at c1 c2 c3 c4 c5
   have hok : AllOK l3 := by intro t ht; rw [c5] at ht; rw [c1, c5]; exact h.ok t ht
@@ -962,7 +1160,8 @@ theorem blk_emit (l l3 : L) (h : Inv l) (hb : Blk { l with start := l.pos } l3)
     rw [c1, c2, c3, c4, c5]; exact h.tr
   have hab : Tr l3.inp l3.toks.toList l3.pos l3.line l3.lastnl := by
     rw [c1, c2, c3, c5]; exact h.tr.noNl hb.ge hb.nonl
-  exact ⟨emit_phase l3 id val ident ae l3.line l3.lastnl hok hst hb.le hab (by rw [c1, c4]; exact hs), c1⟩
+  exact ⟨emit_phase l3 id val ident ae l3.line l3.lastnl hok hst hb.le hab (by rw [c1, c4]; exact hs), c1,
+    (emit_toks l3 id val ident ae).trans (congrArg (fun a => Array.push a _) c5)⟩
 
 /-- the ids and keys of the keyword / symbol tables -/
 theorem tables_clean : ∀ p ∈ keywordBytes ++ symbolBytes, 16 ≤ p.2 ∧ p.1 ≠ [] := by decide
@@ -1015,12 +1214,21 @@ theorem sws_opener (l : L) (h : Inv l) {c : Nat} (hpk : l.peek 1 = some c)
   obtain ⟨hp, hd⟩ := peek1_some hpk
   obtain ⟨e1, e2⟩ := sws_pos l hp (by rw [hd]; exact blank_false_of hc)
   exact ⟨(sws_ext l).allOK h.ok, e2, fun hok => ⟨sws_inv l h hok, fun n => peek_congr e2 e1 n,
-    (sws_inv_ready l h hok).2⟩⟩
+    (sws_inv_ready l h hok).2.1⟩⟩
 
 theorem lexWordText_inv (l l2 : L) (h : Inv l) (hr : Ready l) (hb : Blk { l with start := l.pos } l2) :
     AllOK (lexWordText l2).1 ∧ ((lexWordText l2).2 = Next.token → Inv (lexWordText l2).1) ∧
-      (lexWordText l2).1.inp = l.inp := by
+      (lexWordText l2).1.inp = l.inp ∧ Pushed l (lexWordText l2) := by
   have b3 := hb.trans (lexTextBlock_blk l2 hb.le)
+  -- a non-empty word has moved the position
+  have hprog : (lexTextBlock l2).slice (lexTextBlock l2).start (lexTextBlock l2).pos ≠ [] → l.pos < (lexTextBlock l2).pos := by
+    intro hne
+    have hs4 : (lexTextBlock l2).start = l.pos := (core_fields b3.core).2.2.2.1
+    have hge : (lexTextBlock l2).start ≤ (lexTextBlock l2).pos := by rw [hs4]; exact b3.ge
+    have hl := slice_length (lexTextBlock l2) _ _ hge b3.le
+    have : 0 < ((lexTextBlock l2).slice (lexTextBlock l2).start (lexTextBlock l2).pos).length :=
+      Nat.pos_of_ne_zero (fun h0 => hne (List.eq_nil_of_length_eq_zero h0))
+    rw [hl, hs4] at this; omega
   obtain ⟨c1, c2, c3, c4, c5⟩ := core_fields b3.core
   simp only [] at c1 c4
   have hstart : ∀ id, 7 ≤ id ∨ id = tERROR → StartOK l.inp id l.pos := by
@@ -1045,30 +1253,30 @@ theorem lexWordText_inv (l l2 : L) (h : Inv l) (hr : Ready l) (hb : Blk { l with
     have hne := lowerGo_ne_nil hkne
     unfold L.emitToken
     split
-    · obtain ⟨i1, i2⟩ := blk_emit l _ h b3 tEOF [] false false (Or.inl rfl)
-      exact ⟨i1.ok, fun _ => i1, i2⟩
-    · obtain ⟨i1, i2⟩ := blk_emit l _ h b3 t ((lexTextBlock l2).slice (lexTextBlock l2).start (lexTextBlock l2).pos) false false
+    · obtain ⟨i1, i2, i3⟩ := blk_emit l _ h b3 tEOF [] false false (Or.inl rfl)
+      exact ⟨i1.ok, fun _ => i1, i2, _, i3, b3.le, fun _ => hprog hne, fun h' => by simp at h'⟩
+    · obtain ⟨i1, i2, i3⟩ := blk_emit l _ h b3 t ((lexTextBlock l2).slice (lexTextBlock l2).start (lexTextBlock l2).pos) false false
         (Or.inr ⟨hstart t (Or.inl (by omega)), htext t (by omega) hne⟩)
-      exact ⟨i1.ok, fun _ => i1, i2⟩
+      exact ⟨i1.ok, fun _ => i1, i2, _, i3, b3.le, fun _ => hprog hne, fun h' => by simp at h'⟩
   · split
-    · obtain ⟨i1, i2⟩ := blk_emit l _ h b3 tERROR (str "Cannot parse identifier") false false
+    · obtain ⟨i1, i2, i3⟩ := blk_emit l _ h b3 tERROR (str "Cannot parse identifier") false false
         (Or.inr ⟨hstart tERROR (Or.inr rfl), by unfold TextOK; simp⟩)
-      exact ⟨i1.ok, fun h' => by simp at h', i2⟩
+      exact ⟨i1.ok, fun h' => by simp at h', i2, _, i3, b3.le, fun h' => by simp at h', fun _ => Or.inl rfl⟩
     · rename_i hnp
       have hname : namePattern (lowerGo ((lexTextBlock l2).slice (lexTextBlock l2).start (lexTextBlock l2).pos)) = true := by
         simpa using hnp
       have hne : (lexTextBlock l2).slice (lexTextBlock l2).start (lexTextBlock l2).pos ≠ [] := by
         apply lowerGo_ne_nil
         intro h0; rw [h0] at hname; simp [namePattern] at hname
-      obtain ⟨i1, i2⟩ := blk_emit l _ h b3 tIDENTIFIER
+      obtain ⟨i1, i2, i3⟩ := blk_emit l _ h b3 tIDENTIFIER
         ((lexTextBlock l2).slice (lexTextBlock l2).start (lexTextBlock l2).pos) true false
         (Or.inr ⟨hstart tIDENTIFIER (Or.inl (by decide)), htext tIDENTIFIER (by decide) hne⟩)
-      exact ⟨i1.ok, fun _ => i1, i2⟩
+      exact ⟨i1.ok, fun _ => i1, i2, _, i3, b3.le, fun _ => hprog hne, fun h' => by simp at h'⟩
 
 theorem lexWord_inv (l : L) (h : Inv l) (hr : Ready l) :
     AllOK (lexWord { l with start := l.pos }).1 ∧
       ((lexWord { l with start := l.pos }).2 = Next.token → Inv (lexWord { l with start := l.pos }).1) ∧
-      (lexWord { l with start := l.pos }).1.inp = l.inp := by
+      (lexWord { l with start := l.pos }).1.inp = l.inp ∧ Pushed l (lexWord { l with start := l.pos }) := by
   have b1 : Blk { l with start := l.pos } (lexNumberBlock { l with start := l.pos }) :=
     lexNumberBlock_blk _ h.le
   simp only [lexWord]
@@ -1100,10 +1308,12 @@ theorem lexWord_inv (l : L) (h : Inv l) (hr : Ready l) :
         refine ⟨(lexNumberBlock { l with start := l.pos }).pos, by rw [c4] at hlen; omega,
           by have := b1.le; rw [c1] at this; exact this, ?_⟩
         simp only [L.slice, c1, c4]
-    obtain ⟨i1, i2⟩ := blk_emit l _ h b1 tNUMBER
+    obtain ⟨i1, i2, i3⟩ := blk_emit l _ h b1 tNUMBER
       (lowerGo ((lexNumberBlock { l with start := l.pos }).slice (lexNumberBlock { l with start := l.pos }).start
         (lexNumberBlock { l with start := l.pos }).pos)) false false (Or.inr hshape)
-    exact ⟨i1.ok, fun _ => i1, i2⟩
+    exact ⟨i1.ok, fun _ => i1, i2, _, i3, b1.le,
+      fun _ => by show l.pos < (lexNumberBlock { l with start := l.pos }).pos; rw [c4] at hlen; omega,
+      fun h' => by simp at h'⟩
   · apply lexWordText_inv l _ h hr
     obtain ⟨c1, c2, c3, c4, c5⟩ := core_fields b1.core
     simp only [] at c4
@@ -1126,7 +1336,11 @@ theorem lexWord_inv (l : L) (h : Inv l) (hr : Ready l) :
     · exact b1
 
 theorem lexToken_inv (l : L) (h : Inv l) (hr : Ready l) :
-    AllOK (lexToken l).1 ∧ ((lexToken l).2 = Next.token → Inv (lexToken l).1) ∧ (lexToken l).1.inp = l.inp := by
+    AllOK (lexToken l).1 ∧ ((lexToken l).2 = Next.token → Inv (lexToken l).1) ∧ (lexToken l).1.inp = l.inp ∧
+      Pushed l (lexToken l) := by
+  have htrue := sws_true l hr.1 hr.2
+  have hsame := sws_pos l hr.1 hr.2
+  have htk := (sws_total l h.le).2 htrue
   simp only [lexToken]
   split
   · rename_i hc
@@ -1137,16 +1351,13 @@ theorem lexToken_inv (l : L) (h : Inv l) (hr : Ready l) :
       · exact ⟨35, h1, Or.inr (Or.inl rfl)⟩
     obtain ⟨c, hpk, hcc⟩ := hpk
     obtain ⟨s1, s2, s3⟩ := sws_opener l h hpk hcc
-    split
-    · rename_i hok
-      obtain ⟨hinv, hpe, _⟩ := s3 hok
-      have := lexComment_inv _ hinv (by
-        rw [hpe 1, hpe 2]
-        rcases hc with ⟨h1, h2⟩ | h1
-        · exact Or.inr ⟨h1, h2⟩
-        · exact Or.inl h1)
-      exact ⟨this.1, this.2.1, this.2.2.trans s2⟩
-    · exact ⟨s1, fun h' => by simp at h', s2⟩
+    obtain ⟨hinv, hpe, _⟩ := s3 htrue
+    have := lexComment_inv _ hinv (by
+      rw [hpe 1, hpe 2]
+      rcases hc with ⟨h1, h2⟩ | h1
+      · exact Or.inr ⟨h1, h2⟩
+      · exact Or.inl h1)
+    exact ⟨this.1, this.2.1, this.2.2.1.trans s2, this.2.2.2.congr htk hsame.1⟩
   · split
     · rename_i hc
       simp only [Bool.or_eq_true, Bool.and_eq_true, decide_eq_true_eq] at hc
@@ -1157,14 +1368,11 @@ theorem lexToken_inv (l : L) (h : Inv l) (hr : Ready l) :
         · exact ⟨114, h1, by simp⟩
       obtain ⟨c, hpk, hcc⟩ := hpk
       obtain ⟨s1, s2, s3⟩ := sws_opener l h hpk hcc
-      split
-      · rename_i hok
-        obtain ⟨hinv, hpe, hrdy⟩ := s3 hok
-        have := lexValue_inv _ hinv hrdy (by
-          rw [hpe 1, hpk]
-          rcases hcc with rfl | rfl | rfl | rfl | rfl <;> decide)
-        exact ⟨this.1, this.2.1, this.2.2.trans s2⟩
-      · exact ⟨s1, fun h' => by simp at h', s2⟩
+      obtain ⟨hinv, hpe, hrdy⟩ := s3 htrue
+      have := lexValue_inv _ hinv hrdy (by
+        rw [hpe 1, hpk]
+        rcases hcc with rfl | rfl | rfl | rfl | rfl <;> decide)
+      exact ⟨this.1, this.2.1, this.2.2.1.trans s2, this.2.2.2.congr htk hsame.1⟩
     · exact lexWord_inv l h hr
 
 theorem lex_loop_ok (fuel : Nat) : ∀ (l : L), Inv l → Ready l →
@@ -1173,7 +1381,7 @@ theorem lex_loop_ok (fuel : Nat) : ∀ (l : L), Inv l → Ready l →
   | zero => intro l h _; exact ⟨h.ok, rfl⟩
   | succ n ih =>
     intro l h hr
-    obtain ⟨t1, t2, t3⟩ := lexToken_inv l h hr
+    obtain ⟨t1, t2, t3, _⟩ := lexToken_inv l h hr
     have e := sws_ext (lexToken l).1
     simp only [lex.loop]
     split
@@ -1185,7 +1393,7 @@ theorem lex_loop_ok (fuel : Nat) : ∀ (l : L), Inv l → Ready l →
         cases hx : (lexToken l).2 with
         | token => rfl
         | stop => exact absurd hx hnx
-      have := ih _ (sws_inv _ (t2 htok) hok) (sws_inv_ready _ (t2 htok) hok).2
+      have := ih _ (sws_inv _ (t2 htok) hok) (sws_inv_ready _ (t2 htok) hok).2.1
       exact ⟨this.1, this.2.trans (e.1.trans t3)⟩
 
 theorem lex_ok (input : List Nat) :
@@ -1200,7 +1408,7 @@ theorem lex_ok (input : List Nat) :
     exact this
   · rename_i hok
     simp only [Bool.not_eq_true', Bool.not_eq_false] at hok
-    have := lex_loop_ok (input.length + 2) _ (sws_inv _ h0 hok) (sws_inv_ready _ h0 hok).2
+    have := lex_loop_ok (input.length + 2) _ (sws_inv _ h0 hok) (sws_inv_ready _ h0 hok).2.1
     have hi := this.2.trans e.1
     have h1 := this.1
     rw [AllOK, hi] at h1
